@@ -367,7 +367,12 @@ func C10(p *Prog, r *Run) {
 					why = "replaced by the constant " + vt.Name
 				}
 			default:
-				why = "set to " + vt.String()
+				// the update computed in locals and stored once (a helper working on a value, inlined): per path
+				if okP, w := c10OrderPreservingByPaths(adj, ta, st, self); okP {
+					okM, why = true, w
+				} else {
+					why = "set to " + vt.String() + " (" + w + ")"
+				}
 			}
 			r.Check(okM, "adjustFitness.order-preserving", p.Pos(st.Pos()), "fitness update keeps the order of distinct positive values ("+why+")",
 				"before the species is sorted an organism's fitness is "+why+": distinct positive fitness values can become equal (or change order), so Organisms[0] - the organism that is cloned - need not be the fittest")
